@@ -1261,6 +1261,20 @@ namespace bloch::compiler {
                 default:
                     break;
             }
+            // The evaluator converts literal text with std::stoi / std::stoll / std::stof: refuse
+            // here, with a position, what those cannot represent.
+            try {
+                if (tok.type == TokenType::IntegerLiteral) {
+                    (void)std::stoi(tok.value);
+                } else if (tok.type == TokenType::LongLiteral) {
+                    (void)std::stoll(tok.value.substr(0, tok.value.size() - 1));
+                } else if (tok.type == TokenType::FloatLiteral) {
+                    (void)std::stof(tok.value);
+                }
+            } catch (const std::exception&) {
+                throw BlochError(ErrorCategory::Parse, tok.line, tok.column,
+                                 "numeric literal '" + tok.value + "' is out of range");
+            }
             return std::make_unique<LiteralExpression>(LiteralExpression{tok.value, litType});
         }
 
